@@ -132,6 +132,11 @@ def splitlines (s : Str) (keep : Bool) : List Str := splitlinesAux keep s []
 
 /-! ## replace -/
 
+/-- `count.is_some() && replaced_count >= count.unwrap()` -/
+def limitReached : Option Nat → Nat → Bool
+  | some c, k => decide (c ≤ k)
+  | none, _ => false
+
 /-- the `while let` loop of `_replace` (`string.rs:136-150`, repaired: the search resumes after the inserted text).
 `done ++ rest` is `replaced_string`, `done.length` is `start`, `k` is `replaced_count`. -/
 def replaceLoop (old new : Str) (cnt : Option Nat) : Nat → Str → Str → Nat → Str
@@ -140,7 +145,7 @@ def replaceLoop (old new : Str) (cnt : Option Nat) : Nat → Str → Str → Nat
     match find rest old with
     | none => done ++ rest
     | some i =>
-      if (match cnt with | some c => decide (c ≤ k) | none => false) then done ++ rest
+      if limitReached cnt k then done ++ rest
       else if old.isEmpty then
         -- `start = index + new.len() + 1; if start > replaced_string.len() { break }`
         match rest.drop i with
